@@ -80,8 +80,10 @@ impl Prechecker for DefaultPrechecker {
                 None
             }
             PrecheckData::NotCheck { pinned_or_king } => {
-                if !pinned_or_king.has(mv.src()) {
+                if !pinned_or_king.has(mv.src()) && mv.kind() != MoveKind::Enpassant {
                     // The piece is not pinned and is not a king, so the move is definitely legal.
+                    // Enpassant is an exception: it removes two pawns from the same rank at once
+                    // and thus may open a line towards the king even if no piece is pinned.
                     Some(true)
                 } else {
                     None
